@@ -140,10 +140,13 @@ class Path(parent.Geometry):
         """
         Apply basic cleaning functions to the Path object in-place.
         """
-        with self._cache:
-            self.merge_vertices()
-            self.remove_duplicate_entities()
-            self.remove_unreferenced_vertices()
+        # every one of these changes vertices or entities so they
+        # can't run with the cache locked: values computed for the
+        # previous vertices (i.e. `referenced_vertices`) would be used
+        # by the next step and then kept after the lock is released
+        self.merge_vertices()
+        self.remove_duplicate_entities()
+        self.remove_unreferenced_vertices()
         return self
 
     @property
